@@ -372,6 +372,33 @@ def rule_alloc(rep, tname, m):
            % (D, H, what, resid, "" if ok else "NOT "), loc(cfn), sample={"type": tname, "alloc": str(D), "history": str(H), "need": str(need), "relaxed_difference": str(resid)})
 
 
+def rule_subindex(rep):
+    """get_nearest_times_N adds offsets O to the base sub-index and wraps once, so the sub-index it returns is < factor only when
+    factor ≥ max(O) (and ≥ −min(O)).  The kernels assert subindex < nbr_sincs: a constructor that accepts a smaller oversampling factor
+    for that interpolation type builds a resampler whose first call panics."""
+    from C01 import SINC_BLENDS, nearest_offsets
+    facts = rep.ctx.facts
+    R = "R-C03-subindex"
+    need = {}
+    for variant, (blend, nfn, npts) in SINC_BLENDS.items():
+        fn, offs, wlo, whi, base_ok = nearest_offsets(facts, nfn)
+        if offs is None:
+            raise ir.AnchorMissing("offsets of %s" % nfn)
+        loops_until_in_range = any(x.get("k") == "while" for x in walk(fn["body"])) or any(x.get("k") == "mcall" and x["name"] in ("rem_euclid", "div_euclid") for x in walk(fn["body"]))
+        need[variant] = 1 if loops_until_in_range else max(max(offs), -min(offs), 1)
+    worst = max(need.values())
+    for t in ("SincFixedIn", "SincFixedOut"):
+        cfn, cst, inits = ctor_state(facts, t)
+        guards = [x for x in walk(cfn["body"]) if x.get("k") == "if" and any(y.get("k") == "mcall" and y["name"] == "nbr_sincs" for y in walk(x["c"]))]
+        also_new = facts.method(t, "new", None)
+        if also_new is not None:
+            guards += [x for x in walk(also_new["body"]) if x.get("k") == "if" and any((y.get("k") == "field" and y["name"] == "oversampling_factor") for y in walk(x["c"]))]
+        ok = worst <= 1 or bool(guards)
+        rep.ob(R, t, ok,
+               "minimum oversampling factor per interpolation type %s (offsets added to the sub-index, single wrap); the constructor accepts any factor, e.g. 1 with Cubic/Quadratic: "
+               "the first process call then panics in the kernel's `subindex < nbr_sincs` assert" % need, loc(cfn), sample={"type": t, "min_factor": need})
+
+
 def rule_validate_exact(rep):
     """validate_buffers accepts buffers of exactly the advertised size (and larger): evaluated on order representatives."""
     facts = rep.ctx.facts
@@ -414,6 +441,7 @@ def run(rep):
         rep.guarded("R-C03-chan", one)
     rep.guarded("R-C03-validate-exact", rule_validate_exact)
     rep.guarded("R-C03-cpu-guard", rule_cpu_guard)
+    rep.guarded("R-C03-subindex", rule_subindex)
     import C06
     for t in ("SincFixedOut", "FastFixedOut"):
         def prov(rep, t=t):
@@ -436,6 +464,7 @@ def run(rep):
     rep.floor("R-C03-outwrite", 18)
     rep.floor("R-C03-margin", 2 + 9 + 9)
     rep.floor("R-C03-history", 2)
+    rep.floor("R-C03-subindex", 2)
     rep.floor("R-C03-cpu-guard", 4 + 1 + 3 * (4 + 1 + 1) + 6)
     rep.floor("R-C03-alloc", 4)
     rep.floor("R-C03-validate-exact", 2)
@@ -446,6 +475,7 @@ def run(rep):
     rep.floor("R-C13-order", 28)
     rep.clause("R-C03-guard", "each of the 4 kernel wrappers asserts index+length < wave.len() and subindex < nbr_sincs before its unsafe code; those fields are the dimensions given to make_sincs; sinc_len % 8 == 0 asserted")
     rep.clause("R-C03-kernel-bounds", "given the asserts, every get_unchecked / SIMD load in the 7 kernels stays inside wave[index..index+length) and the packed table")
+    rep.clause("R-C03-subindex", "sub-indices produced by get_nearest_times_* stay below the oversampling factor for every configuration the constructors accept (today factor 1 with Cubic/Quadratic is accepted: known finding)")
     rep.clause("R-C03-cpu-guard", "each SIMD interpolator refuses construction unless exactly the CPU features its #[target_feature] kernels are compiled for are detected; the kernels are reachable only through it")
     rep.clause("R-C03-chan", "per-channel (unchecked) accesses are indexed by the enumerate index of channel_mask; buffer and mask have nbr_channels entries and are never resized")
     rep.clause("R-C03-outwrite", "fixed-output: the write index is the loop variable of 0..chunk_size and chunk_size is the validated output length; fixed-input: the write index is a 0-based counter incremented once per frame")
@@ -459,7 +489,7 @@ def run(rep):
     rep.not_decided += [
         "fixed-input: that the number of frames written stays ≤ the validated output length (see C04 R-C04-outbound) and that a ramp never overshoots its end value",
         "integer overflow freedom; panics in checked indexing driven by run-time f64 positions beyond the stated margin rules",
-        "configurations the constructors accept but the kernels cannot serve (oversampling_factor 1 with Cubic/Quadratic)"]
+        ]
     rep.trusted += ["syn parser", "sympy simplification", "Rust slice / assert! semantics"]
     return rep.finish(level="other", explanation=(
         "Guard-dominance rules for the unsafe kernels, index-discipline rules for unchecked channel access, and symbolic margin rules "
